@@ -224,10 +224,17 @@ def integration_shard(seed: int, scenarios: int, known: list[str]) -> dict:
             pair = {k: apps.make_app(k, **conf) for k in ("mem", "sqlite")}
             ctxs = [apps.rctx(f"run{i}") for i in range(n)]
             silent = set(rnd.sample(range(n), rnd.choice([0, 0, 1])))
+            # runners that start at the same instant (one batch heartbeat, e.g. the workers of one parent) have equal creation
+            # timestamps: the order among them is arbitrary but must be the same for every caller
+            same_instant = rnd.random() < 0.4
+            if same_instant:
+                for app in pair.values():
+                    app.orchestrator.register_runner_heartbeats([c.runner_id for c in ctxs], can_run_atomic_service=True)
             for i, c in enumerate(ctxs):
                 for app in pair.values():
                     app.orchestrator.should_run_atomic_service(c)
-                clock.advance(rnd.choice([0.25, 1.0, 3.5]))
+                if not same_instant:
+                    clock.advance(rnd.choice([0.25, 1.0, 3.5]))
             t_end = clock.time() + interval * 60 * 2 + dead_after * 60
             step = interval * 60 / rnd.choice([7, 13, 29])
             while clock.time() < t_end:
@@ -242,13 +249,13 @@ def integration_shard(seed: int, scenarios: int, known: list[str]) -> dict:
                         ans.append(bool(app.orchestrator.should_run_atomic_service(c)))
                     answers[kind] = ans
                     active = len(app.orchestrator.get_active_runners(can_run_atomic_service=True))
-                case = {"n": n, "interval_min": interval, "margin_min": margin, "silent": sorted(silent), "t": clock.time(), "answers": answers}
-                part.case(key=(sc, seed, clock.us), nontrivial=active >= 2, classes=[f"active{active}", f"n{n}"], sample=case)
+                case = {"n": n, "interval_min": interval, "margin_min": margin, "silent": sorted(silent), "t": clock.time(), "answers": answers, "same_instant_start": same_instant}
+                part.case(key=(sc, seed, clock.us), nontrivial=active >= 2, classes=[f"active{active}", f"n{n}", "same_instant_start" if same_instant else "staggered_start"], sample=case)
                 for kind, ans in answers.items():
                     if sum(1 for a in ans if a) > 1:
                         key = f"integration:two-authorised:{kind}"
                         (part.known if key in known else lambda k: part.violation(k, f"{kind}: {ans} at {case}", case))(key)
-                if answers["mem"] != answers["sqlite"]:
+                if answers["mem"] != answers["sqlite"] and not same_instant:  # ties in the creation time may be ordered differently per backend
                     key = "integration:backend-disagreement"
                     (part.known if key in known else lambda k: part.violation(k, f"mem {answers['mem']} sqlite {answers['sqlite']}", case))(key)
     finally:
